@@ -5,6 +5,25 @@ use crate::io::*;
 use vek::mat::repr_c::row_major as rm;
 use vek::mat::repr_c::column_major as cm;
 
+/// a matrix T * R * S (R an exact rational rotation from an integer quaternion), in the given storage order
+fn trs(seed: u64, col_major: bool, scale: bool) -> Vec<f64> {
+    let mut r = seed.wrapping_mul(0x9E3779B97F4A7C15) | 1;
+    let mut nx = || { r ^= r << 13; r ^= r >> 7; r ^= r << 17; r };
+    let q: Vec<f64> = loop { let q: Vec<f64> = (0..4).map(|_| (nx() % 7) as f64 - 3.0).collect(); if q.iter().any(|x| *x != 0.0) { break q; } };
+    let (w, x, y, z) = (q[0], q[1], q[2], q[3]); let n = w * w + x * x + y * y + z * z;
+    let rot = [[(w * w + x * x - y * y - z * z) / n, 2.0 * (x * y - w * z) / n, 2.0 * (x * z + w * y) / n],
+               [2.0 * (x * y + w * z) / n, (w * w - x * x + y * y - z * z) / n, 2.0 * (y * z - w * x) / n],
+               [2.0 * (x * z - w * y) / n, 2.0 * (y * z + w * x) / n, (w * w - x * x - y * y + z * z) / n]];
+    let sc: Vec<f64> = (0..3).map(|_| if scale { [0.5, 1.0, 2.0, 3.0, -2.0][(nx() % 5) as usize] } else { 1.0 }).collect();
+    let tr: Vec<f64> = (0..3).map(|_| (nx() % 9) as f64 - 4.0).collect();
+    let mut m = [[0.0f64; 4]; 4];
+    for i in 0..3 { for j in 0..3 { m[i][j] = rot[i][j] * sc[j]; } m[i][3] = tr[i]; }
+    m[3][3] = 1.0;
+    let mut out = vec![];
+    for a in 0..4 { for b in 0..4 { out.push(if col_major { m[b][a] } else { m[a][b] }); } }
+    out
+}
+
 pub fn register(reg: &mut Reg) {
     macro_rules! det { ($name:expr, $M:ty, $nn:expr) => {
         ep!(reg, $name, $nn, |a| { let m: $M = Flat::rd(a); Out::of(vec![m.determinant()]) });
@@ -14,10 +33,10 @@ pub fn register(reg: &mut Reg) {
     macro_rules! inv { ($l:expr, $M:ty) => {
         ep!(reg, format!("mat4{}_inverted", $l), 16, |a| { let m: $M = Flat::rd(a); Out::of(m.inverted().flat()) });
         ep!(reg, format!("mat4{}_invert", $l), 16, |a| { let mut m: $M = Flat::rd(a); m.invert(); Out::of(m.flat()) });
-        ep!(reg, format!("mat4{}_inverted_rigid", $l), 16, |a| { let m: $M = Flat::rd(a); Out::of(m.inverted_affine_transform_no_scale().flat()) });
-        ep!(reg, format!("mat4{}_invert_rigid", $l), 16, |a| { let mut m: $M = Flat::rd(a); m.invert_affine_transform_no_scale(); Out::of(m.flat()) });
-        ep!(reg, format!("mat4{}_inverted_affine", $l), 16, |a| { let m: $M = Flat::rd(a); Out::of(m.inverted_affine_transform().flat()) });
-        ep!(reg, format!("mat4{}_invert_affine", $l), 16, |a| { let mut m: $M = Flat::rd(a); m.invert_affine_transform(); Out::of(m.flat()) });
+        ep!(reg, format!("mat4{}_inverted_rigid", $l), 16, |a| { let m: $M = Flat::rd(a); Out::of(m.inverted_affine_transform_no_scale().flat()) }).pre = Some(Box::new(|s| trs(s, $l == "c", false)));
+        ep!(reg, format!("mat4{}_invert_rigid", $l), 16, |a| { let mut m: $M = Flat::rd(a); m.invert_affine_transform_no_scale(); Out::of(m.flat()) }).pre = Some(Box::new(|s| trs(s, $l == "c", false)));
+        ep!(reg, format!("mat4{}_inverted_affine", $l), 16, |a| { let m: $M = Flat::rd(a); Out::of(m.inverted_affine_transform().flat()) }).pre = Some(Box::new(|s| trs(s, $l == "c", true)));
+        ep!(reg, format!("mat4{}_invert_affine", $l), 16, |a| { let mut m: $M = Flat::rd(a); m.invert_affine_transform(); Out::of(m.flat()) }).pre = Some(Box::new(|s| trs(s, $l == "c", true)));
     } }
     inv!("r", rm::Mat4<T>); inv!("c", cm::Mat4<T>);
 }
